@@ -259,6 +259,13 @@ def check_worker_timeout_path(events: List[int], lock_held: List[bool]) -> bool:
         def release(self):
             order.append(("rel-mgmt",))
 
+        def __enter__(self):  # a blocking acquisition is not part of the protocol: recorded, compared below
+            order.append(("block-on-mgmt",))
+            return True
+
+        def __exit__(self, *a):
+            order.append(("rel-mgmt",))
+
     rq = _RQ([])
     orig_put = rq.put
     rq.put = lambda obj: (order.append(("put", obj if isinstance(obj, int) else ("result", obj.work_id))), orig_put(obj))[1]
